@@ -342,6 +342,28 @@ def m_res_is_ok(interp, fn, args, st, site, frame):
 
 # ------------------------------------------------------------------------------------------ misc
 
+def m_unwrap(interp, fn, args, st, site, frame):
+    """unwrap / expect: the payload on the Some / Ok path (the panicking path is E1's business)"""
+    v = interp.concretize(args[0], st)
+    if isinstance(v, Adt) and v.name in (OPTION, RESULT):
+        good = 1 if v.name == OPTION else 0
+        if v.variant == good:
+            return [(v.fields[0], st)]
+        return []
+    self_ty = fn["full"]
+    if "std::option::Option<" in self_ty:
+        cases = opt_cases(interp, v, st, "unwrap@" + site)
+        return [(c.fields[0], s2) for (c, s2) in cases if c.variant == 1]
+    cases = res_cases(interp, v, st, "unwrap@" + site)
+    return [(c.fields[0], s2) for (c, s2) in cases if c.variant == 0]
+
+
+def m_int_try_from(interp, fn, args, st, site, frame):
+    """integer TryFrom/TryInto: value preserving on the Ok path"""
+    st2 = st.fork()
+    return [(ok(args[0]), st), (err(Top("try-from-int-error")), st2)]
+
+
 def m_identity(interp, fn, args, st, site, frame):
     return [(args[0], st)]
 
@@ -437,6 +459,8 @@ BASE_MODELS = [
     (r"^std::result::Result::<.*>::ok$", m_res_ok),
     (r"^std::result::Result::<.*>::is_ok$|^std::result::Result::<.*>::is_err$", m_res_is_ok),
     (r"as std::clone::Clone>::clone$", m_clone),
+    (r"^std::option::Option::<.*>::(unwrap|expect)$|^std::result::Result::<.*>::(unwrap|expect)$", m_unwrap),
+    (r"^<(u8|u16|u32|u64|usize) as std::convert::TryInto<(u8|u16|u32|u64|usize)>>::try_into$|TryFrom<(u8|u16|u32|u64|usize)> for (u8|u16|u32|u64|usize)>::try_from$", m_int_try_from),
     (r"^<I as std::iter::IntoIterator>::into_iter$", m_identity),
     (r"^<std::string::String as std::ops::Deref>::deref$|^<std::vec::Vec<.*> as std::ops::Deref>::deref$", m_identity),
     (r"as std::cmp::PartialOrd<log::LevelFilter>>::le$", m_log_disabled),
